@@ -1,4 +1,5 @@
 SPECIFICATION TSpec
-INVARIANTS HeaderBloomCompleteT ReceiptBloomCompleteT ChainShapeT QueryExactT
+CONSTANTS StoreWhenEqual = FALSE
+INVARIANTS HeaderBloomCompleteT ReceiptBloomCompleteT ChainShapeT QueryExactT CodecT
 POSTCONDITION TraceAccepted
 CHECK_DEADLOCK FALSE
